@@ -36,6 +36,8 @@ CLAIMED = {
          "The lexical discipline that makes the epoch scheme sound is decided on all paths and call sites; use-after-free over schedules is not.", "DESIGN.md §2 C04"),
  "C07": ("static analysis: ownership rules (allocation consumed on every path, overwrite of the owning store field, error-return release), teardown order by dominance, who-may-free context table, rejected-operation free pairing",
          "Ownership discipline on every path incl. error paths; F8 (failed restore leaks) is a listed known finding.", "DESIGN.md §2 C07"),
+ "C13": ("static analysis: guard-dominance and flag-aware must-pass-through on Insert4's publish/retry, CAS operand shape rules, finite-domain decision tables of softDelete (per-level CAS outcomes) and NewLevel, search guard rules in findPath, sibling agreement of the tagged-word accessors with types.Sizes in both build configurations (amd64 and !amd64)",
+         "Linearizability is NOT decided; decided are the algorithm's local obligations, each a necessary condition with a small-thread counter-example, including the node implementation for other architectures that the baseline never compiles.", "DESIGN.md §2 C13"),
  "C01": ("static analysis: finite-domain decision-table extraction of the visibility predicates (SSA interpreter over epoch orderings), guard-dominance on the collector hand-off, freshness/who-may-write analysis of item headers and payloads, must-precede ordering in NewSnapshot",
          "Necessary structural conditions of snapshot isolation decided on every path and call site of the resolved program (SSA + must-facts + VTA call graph). Not a proof of isolation over all schedules.", "DESIGN.md §2 C01"),
 }
